@@ -121,3 +121,308 @@ Section EvalFacts.
     apply N.eqb_neq in H1, H2, H3, H4, H5. rewrite H1, H2, H3, H4, H5, H6. reflexivity.
   Qed.
 End EvalFacts.
+
+(* ================================================================ StringMap and scopes *)
+
+Lemma aget_aset_same {V : Type} k (v : V) l : aget k (aset k v l) = Some v.
+Proof.
+  induction l as [|[k' v'] l IH]; cbn [aset aget]; [rewrite bytes_eqb_refl; reflexivity|].
+  destruct (bytes_eqb k k') eqn:E; cbn [aget]; [rewrite bytes_eqb_refl; reflexivity|].
+  rewrite E. exact IH.
+Qed.
+
+Lemma aget_aset_other {V : Type} k k' (v : V) l : k <> k' -> aget k (aset k' v l) = aget k l.
+Proof.
+  intros Hne. induction l as [|[k2 v2] l IH]; cbn [aset aget].
+  - apply bytes_eqb_neq in Hne. rewrite Hne. reflexivity.
+  - destruct (bytes_eqb k' k2) eqn:E; cbn [aget].
+    + apply bytes_eqb_eq in E. subst k2. apply bytes_eqb_neq in Hne. rewrite Hne. reflexivity.
+    + destruct (bytes_eqb k k2); [reflexivity | exact IH].
+Qed.
+
+Lemma aget_In {V : Type} k (v : V) l : aget k l = Some v -> In k (map fst l).
+Proof.
+  induction l as [|[k' v'] l IH]; cbn [aget map fst]; [discriminate|].
+  destruct (bytes_eqb k k') eqn:E; [apply bytes_eqb_eq in E; left; symmetry; exact E | right; auto].
+Qed.
+
+(* the innermost scope wins, parents are consulted in order (Scope::lookupBinding) *)
+Theorem lookup_binding_inner_first f ps name :
+  lookup_binding (f :: ps) name = match aget name (f_vars f) with Some v => v | None => lookup_binding ps name end.
+Proof. reflexivity. Qed.
+
+Lemma lookup_binding_set_same sc x v : lookup_binding (set_var sc x v) x = v.
+Proof.
+  destruct sc as [|f ps]; cbn [set_var lookup_binding f_vars aget].
+  - rewrite bytes_eqb_refl. reflexivity.
+  - rewrite aget_aset_same. reflexivity.
+Qed.
+
+Lemma lookup_binding_set_other sc x y v : x <> y -> lookup_binding (set_var sc y v) x = lookup_binding sc x.
+Proof.
+  intros Hne. destruct sc as [|f ps]; cbn [set_var lookup_binding f_vars aget].
+  - apply bytes_eqb_neq in Hne. rewrite Hne. reflexivity.
+  - rewrite aget_aset_other by exact Hne. reflexivity.
+Qed.
+
+Lemma lookup_rule_set_var sc x v n : lookup_rule (set_var sc x v) n = lookup_rule sc n.
+Proof. destruct sc as [|f ps]; reflexivity. Qed.
+
+Lemma lookup_rule_set_same sc n r : lookup_rule (set_rule sc n r) n = Some r.
+Proof.
+  destruct sc as [|f ps]; cbn [set_rule lookup_rule f_rules aget].
+  - rewrite bytes_eqb_refl. reflexivity.
+  - rewrite aget_aset_same. reflexivity.
+Qed.
+
+Lemma find_rule_set_same sc n r : find_rule (set_rule sc n r) n = Some r.
+Proof.
+  destruct sc as [|f ps]; cbn [set_rule find_rule f_rules aget].
+  - rewrite bytes_eqb_refl. reflexivity.
+  - apply aget_aset_same.
+Qed.
+
+Lemma lookup_binding_set_rule sc n r x : lookup_binding (set_rule sc n r) x = lookup_binding sc x.
+Proof. destruct sc as [|f ps]; reflexivity. Qed.
+
+(* a subninja scope starts empty: it sees exactly the bindings and rules of the enclosing scopes *)
+Theorem child_scope_sees_parent sc x : lookup_binding (empty_frame :: sc) x = lookup_binding sc x.
+Proof. reflexivity. Qed.
+
+Theorem child_scope_sees_parent_rules sc n : lookup_rule (empty_frame :: sc) n = lookup_rule sc n.
+Proof. reflexivity. Qed.
+
+(* ================================================================ lookupBuildParameterImpl *)
+
+Definition special_name (n : bytes) : Prop := n = nm_in \/ n = nm_in_newline \/ n = nm_out.
+
+Lemma not_special n : ~ special_name n ->
+  bytes_eqb n nm_in = false /\ bytes_eqb n nm_in_newline = false /\ bytes_eqb n nm_out = false.
+Proof.
+  intros H. repeat split; apply bytes_eqb_neq; intros E; apply H; unfold special_name; auto.
+Qed.
+
+(* the order of lookupBuildParameterImpl for a name other than in / in_newline / out: build-level binding, else the
+   rule-level text evaluated in the build's context (guarded against cycles), else the scope chain *)
+Theorem lookup_order fuel cx active name : ~ special_name name ->
+  lookup_var (S fuel) cx active name =
+  match aget name (bx_params cx) with
+  | Some v => (v, [])
+  | None =>
+    match aget name (bx_rule cx) with
+    | Some text =>
+      if mem_bytes name active then ([], [ECycle name])
+      else eval_string (fun e => EEvalDuring e name) (lookup_var fuel cx (name :: active)) text
+    | None => (lookup_binding (bx_scopes cx) name, [])
+    end
+  end.
+Proof.
+  intros H. destruct (not_special name H) as [H1 [H2 H3]].
+  cbn [lookup_var]. rewrite H1, H2, H3. reflexivity.
+Qed.
+
+(* $in: the explicit inputs only, joined by a space; $in_newline: by a newline; $out: all outputs; each path is
+   shell-escaped iff the context says so *)
+Theorem in_expansion fuel ex outs ps rule sc esc active :
+  lookup_var fuel (mkCtx ex outs ps rule sc esc) active nm_in =
+  (join_with 32 (map (fun p => if esc then shell_escaped p else p) ex), []).
+Proof. destruct fuel; reflexivity. Qed.
+
+Theorem in_newline_expansion fuel ex outs ps rule sc esc active :
+  lookup_var fuel (mkCtx ex outs ps rule sc esc) active nm_in_newline =
+  (join_with 10 (map (fun p => if esc then shell_escaped p else p) ex), []).
+Proof. destruct fuel; reflexivity. Qed.
+
+Theorem out_expansion fuel ex outs ps rule sc esc active :
+  lookup_var fuel (mkCtx ex outs ps rule sc esc) active nm_out =
+  (join_with 32 (map (fun p => if esc then shell_escaped p else p) outs), []).
+Proof. destruct fuel; reflexivity. Qed.
+
+(* which expansions see shell-escaped paths: all but the depfile and rspfile names *)
+Theorem escapes_in_out_spec name : escapes_in_out name = false <-> name = nm_depfile \/ name = nm_rspfile.
+Proof.
+  unfold escapes_in_out. rewrite andb_false_iff, !negb_false_iff, !bytes_eqb_eq. tauto.
+Qed.
+
+Theorem lookup_named_context ex outs ps rule sc name :
+  lookup_named ex outs ps rule sc name =
+  lookup_var (S (length rule)) (mkCtx ex outs ps rule sc (escapes_in_out name)) [] name.
+Proof. reflexivity. Qed.
+
+(* what actOnEndBuildDecl stores: each attribute is the named lookup in the context of THIS command - its explicit
+   inputs (not the implicit or order-only ones), its outputs, its build-level bindings, its rule, the current scope *)
+Theorem end_build_strings wd sc pools rn rule outs ex im oo params :
+  let c := fst (end_build wd sc pools rn rule outs ex im oo params) in
+  let look := lookup_named (screens ex) (screens outs) params rule sc in
+  c_command c = fst (look nm_command) /\
+  c_description c = fst (look nm_description) /\
+  c_outputs c = outs /\ c_explicit c = ex /\ c_implicit c = im /\ c_orderonly c = oo /\ c_rule c = rn.
+Proof. cbn. repeat split. Qed.
+
+Theorem run_build_command wd sc st outs rname ex im oo binds :
+  let st' := run_build wd sc st outs rname ex im oo binds in
+  let rr := resolve_rule sc rname in
+  let po := eval_paths wd sc EEmptyOutput outs (m_nodes st) in
+  let pe := eval_paths wd sc EEmptyInput ex (p_map po) in
+  exists c, m_commands st' = m_commands st ++ [c] /\
+    c_command c = fst (lookup_named (screens (p_nodes pe)) (screens (p_nodes po)) (fst (build_bindings sc binds []))
+                                    (snd (fst rr)) sc nm_command) /\
+    c_description c = fst (lookup_named (screens (p_nodes pe)) (screens (p_nodes po)) (fst (build_bindings sc binds []))
+                                        (snd (fst rr)) sc nm_description).
+Proof.
+  cbn zeta. unfold run_build. cbn [add_command m_commands]. eexists. split; [reflexivity|].
+  split; reflexivity.
+Qed.
+
+(* ================================================================ the fuel of rule-variable expansion is never exhausted *)
+
+Definition nf (es : list err) : Prop := ~ In EOutOfFuel es.
+
+Lemma nf_nil : nf [].
+Proof. intros H; exact H. Qed.
+
+Lemma nf_app a b : nf (a ++ b) <-> nf a /\ nf b.
+Proof. unfold nf. rewrite in_app_iff. tauto. Qed.
+
+Lemma nf_cons e a : e <> EOutOfFuel -> nf a -> nf (e :: a).
+Proof. unfold nf. cbn. intros H1 H2 [H|H]; [apply H1; exact H | apply H2; exact H]. Qed.
+
+Lemma nf_one e : e <> EOutOfFuel -> nf [e].
+Proof. intros H. apply nf_cons; [exact H | apply nf_nil]. Qed.
+
+Lemma eval_go_nf (wrap : eval_err -> err) lookup :
+  (forall e, wrap e <> EOutOfFuel) -> (forall n, nf (snd (lookup n))) ->
+  forall s m, nf (snd (eval_go wrap lookup m s)).
+Proof.
+  intros Hw Hl. induction s as [|b s IH]; intros m.
+  - destruct m; cbn [eval_go ev_done ev_fail snd]; try apply nf_nil; try (apply nf_one; apply Hw). apply Hl.
+  - destruct m as [| | |n v|n]; cbn [eval_go].
+    + destruct (b =? 36); [apply IH | cbn [ev_emit snd]; apply IH].
+    + destruct (b =? 10); [apply IH|].
+      destruct ((b =? 32) || (b =? 58) || (b =? 36)); [cbn [ev_emit snd]; apply IH|].
+      destruct (b =? 123); [apply IH|].
+      destruct (NinjaLex.is_simple_ident_char b); [apply IH|].
+      cbn [ev_fail snd]. apply nf_one. apply Hw.
+    + destruct (NinjaLex.is_space b); [apply IH|].
+      destruct (b =? 36); [apply IH | cbn [ev_emit snd]; apply IH].
+    + destruct (b =? 125); [|apply IH].
+      unfold ev_then. cbn [snd]. apply nf_app. split; [|apply IH].
+      destruct v; [apply Hl | cbn [snd]; apply nf_one; apply Hw].
+    + destruct (NinjaLex.is_simple_ident_char b); [apply IH|].
+      unfold ev_then. cbn [snd]. apply nf_app. split; [apply Hl|].
+      destruct (b =? 36); [apply IH | cbn [ev_emit snd]; apply IH].
+Qed.
+
+Lemma eval_in_scope_nf sc s : nf (snd (eval_in_scope sc s)).
+Proof.
+  unfold eval_in_scope, eval_string. apply eval_go_nf; [intros e; discriminate | intros n; apply nf_nil].
+Qed.
+
+(* activeRuleParameters never repeats a name and only holds names of the rule, so it is shorter than the rule's
+   variable table whenever one more name is pushed *)
+Lemma lookup_var_nf cx : forall fuel active name,
+  NoDup active -> incl active (map fst (bx_rule cx)) -> (length (bx_rule cx) < fuel + length active)%nat ->
+  nf (snd (lookup_var fuel cx active name)).
+Proof.
+  induction fuel as [|f IH]; intros active name Hnd Hincl Hlen.
+  - cbn [lookup_var].
+    destruct (bytes_eqb name nm_in); [apply nf_nil|].
+    destruct (bytes_eqb name nm_in_newline); [apply nf_nil|].
+    destruct (bytes_eqb name nm_out); [apply nf_nil|].
+    destruct (aget name (bx_params cx)); [apply nf_nil|].
+    destruct (aget name (bx_rule cx)) as [text|] eqn:Er; [|apply nf_nil].
+    destruct (mem_bytes name active) eqn:Em; [apply nf_one; discriminate|].
+    exfalso.
+    assert (Hn : NoDup (name :: active)).
+    { constructor; [|exact Hnd]. intros Hin. apply mem_bytes_In in Hin. congruence. }
+    assert (Hi : incl (name :: active) (map fst (bx_rule cx))).
+    { intros x [<-|Hx]; [eapply aget_In; exact Er | apply Hincl; exact Hx]. }
+    pose proof (NoDup_incl_length Hn Hi) as Hle. rewrite map_length in Hle. cbn [length] in Hle. lia.
+  - cbn [lookup_var].
+    destruct (bytes_eqb name nm_in); [apply nf_nil|].
+    destruct (bytes_eqb name nm_in_newline); [apply nf_nil|].
+    destruct (bytes_eqb name nm_out); [apply nf_nil|].
+    destruct (aget name (bx_params cx)); [apply nf_nil|].
+    destruct (aget name (bx_rule cx)) as [text|] eqn:Er; [|apply nf_nil].
+    destruct (mem_bytes name active) eqn:Em; [apply nf_one; discriminate|].
+    unfold eval_string. apply eval_go_nf; [intros e; discriminate|].
+    intros n. apply IH.
+    + constructor; [|exact Hnd]. intros Hin. apply mem_bytes_In in Hin. congruence.
+    + intros x [<-|Hx]; [eapply aget_In; exact Er | apply Hincl; exact Hx].
+    + cbn [length]. lia.
+Qed.
+
+(* rule_cycle_reports_error, termination half: with fuel S (number of rule variables) - what lookup_named passes -
+   or more, the expansion of any name in any build context never runs out of fuel *)
+Theorem rule_expansion_fuel_suffices cx fuel name :
+  (length (bx_rule cx) < fuel)%nat -> nf (snd (lookup_var fuel cx [] name)).
+Proof.
+  intros H. apply lookup_var_nf; [constructor | intros x [] | cbn [length]; lia].
+Qed.
+
+Lemma lookup_named_nf ex outs ps rule sc name : nf (snd (lookup_named ex outs ps rule sc name)).
+Proof. unfold lookup_named. apply rule_expansion_fuel_suffices. cbn [bx_rule var_fuel]. lia. Qed.
+
+(* ================================================================ a rule variable that reaches itself is reported *)
+
+(* [refers text m]: evaluating text calls the Lookup callback on m (whatever the callbacks are, everything the
+   callback reports for m is reported by the evaluation) *)
+Definition refers (text m : bytes) : Prop :=
+  forall (wrap : eval_err -> err) lookup, incl (snd (lookup m)) (snd (eval_string wrap lookup text)).
+
+Lemma refers_simple t name s :
+  no_dollar t -> name <> [] -> all_simple name -> not_simple_head s -> refers (t ++ 36 :: name ++ s) name.
+Proof.
+  intros Ht Hne Hn Hs wrap lookup. rewrite eval_text_prefix by exact Ht. cbn [snd].
+  destruct name as [|b name]; [congruence|].
+  rewrite (eval_simple_var_longest wrap lookup b name s Hn Hs). unfold ev_then. cbn [snd].
+  apply incl_appl. apply incl_refl.
+Qed.
+
+Lemma refers_braced t name s :
+  no_dollar t -> no_close_brace name -> forallb NinjaLex.is_ident_char name = true ->
+  refers (t ++ 36 :: 123 :: name ++ 125 :: s) name.
+Proof.
+  intros Ht Hn Hid wrap lookup. rewrite eval_text_prefix by exact Ht. cbn [snd].
+  rewrite (eval_braced wrap lookup name s Hn). rewrite Hid. unfold ev_then. cbn [snd].
+  apply incl_appl. apply incl_refl.
+Qed.
+
+(* a rule-level variable of the command: not in/in_newline/out, not bound at build level, bound in the rule *)
+Definition rule_level (cx : bctx) (n : bytes) : Prop :=
+  ~ special_name n /\ aget n (bx_params cx) = None /\ exists text, aget n (bx_rule cx) = Some text.
+
+(* following references between rule-level variables from n leads back to a name that is being expanded *)
+Inductive reaches_cycle (cx : bctx) : list bytes -> bytes -> Prop :=
+| rc_here active n : In n active -> rule_level cx n -> reaches_cycle cx active n
+| rc_step active n m text :
+    ~ special_name n -> aget n (bx_params cx) = None -> aget n (bx_rule cx) = Some text -> refers text m ->
+    reaches_cycle cx (n :: active) m -> reaches_cycle cx active n.
+
+Lemma reaches_cycle_error cx active n : reaches_cycle cx active n ->
+  forall fuel, exists e, In e (snd (lookup_var fuel cx active n)) /\ ((exists v, e = ECycle v) \/ e = EOutOfFuel).
+Proof.
+  induction 1 as [active n Hin [Hs [Hp [text Hr]]] | active n m text Hs Hp Hr Href Hrc IH]; intros fuel.
+  - destruct (not_special n Hs) as [H1 [H2 H3]]. apply mem_bytes_In in Hin.
+    exists (ECycle n). split; [|left; eexists; reflexivity].
+    destruct fuel; cbn [lookup_var]; rewrite H1, H2, H3, Hp, Hr, Hin; left; reflexivity.
+  - destruct (not_special n Hs) as [H1 [H2 H3]].
+    destruct (mem_bytes n active) eqn:Em.
+    + exists (ECycle n). split; [|left; eexists; reflexivity].
+      destruct fuel; cbn [lookup_var]; rewrite H1, H2, H3, Hp, Hr, Em; left; reflexivity.
+    + destruct fuel as [|f].
+      * exists EOutOfFuel. split; [|right; reflexivity].
+        cbn [lookup_var]. rewrite H1, H2, H3, Hp, Hr, Em. left; reflexivity.
+      * destruct (IH f) as [e [He Hk]]. exists e. split; [|exact Hk].
+        cbn [lookup_var]. rewrite H1, H2, H3, Hp, Hr, Em. apply Href. exact He.
+Qed.
+
+(* rule_cycle_reports_error: the expansion (with the fuel the loader passes, or more) reports a cycle *)
+Theorem rule_cycle_reports_error cx n fuel :
+  reaches_cycle cx [] n -> (length (bx_rule cx) < fuel)%nat ->
+  exists v, In (ECycle v) (snd (lookup_var fuel cx [] n)).
+Proof.
+  intros Hc Hf. destruct (reaches_cycle_error cx [] n Hc fuel) as [e [He [[v ->]| ->]]].
+  - exists v. exact He.
+  - exfalso. exact (rule_expansion_fuel_suffices cx fuel n Hf He).
+Qed.
